@@ -40,7 +40,7 @@ N, V = X.name, X.num
 SLOTS_THOROUGH = {
     "depth": [0, 1, 2, 3],
     "ratedep": [0, 1],
-    "coef": ["num", "frac", "pname", "pcomp", "scomp", "dcomp", "tcomp"],
+    "coef": ["num", "frac", "pname", "pcomp", "scomp", "dcomp", "tcomp", "zero", "czero"],
     "surr": ["none", "flux", "flux+var", "argderived", "poly", "custom"],
     "data": [0, 1],
     "time": ["none", "rate", "derived"],
@@ -54,7 +54,7 @@ SLOTS_THOROUGH = {
 SLOTS_QUICK = {
     "depth": [0, 3],
     "ratedep": [0, 1],
-    "coef": ["num", "frac", "pname", "pcomp", "scomp", "dcomp", "tcomp"],
+    "coef": ["num", "frac", "pname", "pcomp", "scomp", "dcomp", "tcomp", "zero", "czero"],
     "surr": ["none", "flux+var", "argderived", "poly", "custom"],
     "data": [0, 1],
     "time": ["none", "derived"],
@@ -196,6 +196,10 @@ def make_spec(f):
         coef = {"args": ["dc"], "expr": ["mul", N("dc"), V(1.5)]}
     elif ck == "tcomp":
         coef = {"args": ["time", "k1"], "expr": ["add", N("time"), N("k1")]}
+    elif ck == "zero":
+        coef = 0.0  # a reaction listed for z without moving it
+    elif ck == "czero":
+        coef = {"args": ["k1"], "expr": ["sub", N("k1"), N("k1")]}  # computed, and exactly zero
     else:
         raise ValueError(ck)
     decl.append({"kind": "reaction", "name": "v2", "args": v2_args, "expr": v2_expr, "stoich": {"y": -1, "z": coef}})
